@@ -763,7 +763,7 @@ func (s *SubAlloc) Equal(t *SubAlloc) error {
 	if !s.BalancesEqual(t.Bals) {
 		return errors.New("balances unequal")
 	}
-	if !s.indexMapEqual(s.IndexMap) {
+	if !s.indexMapEqual(t.IndexMap) {
 		return errors.New("unequal index map")
 	}
 	return nil
